@@ -166,3 +166,38 @@ package html
 //@   ensures[S]  result != nil && result.r == r && !result.inTag && result.rawTag == 0 && len(result.tmplBegin) == 0 && len(result.tmplEnd) == 0
 //@ func NewTemplateLexer
 //@   ensures[S]  result != nil && result.r == r && !result.inTag && result.rawTag == 0
+
+// ---- util.go (C17): the output buffer is sized exactly: len(b) + 2 quotes + 4 extra bytes per escaped quote
+//@ func EscapeAttrVal
+//@   requires[S] buf != nil && disjoint(b, deref(buf))
+//@   requires[F] disjoint(deref(buf), singleQuoteEntityBytes) && disjoint(deref(buf), doubleQuoteEntityBytes)
+//@   ensures[S]  len(result) >= len(b)
+//@   ensures[F,C17] @no-raw-quote: !sameSlice(result, b) ==> forall(k, 1, len(result)-1, result[k] != result[0])
+//@   ensures[F,C17] @unquoted: sameSlice(result, b) ==> forall(k, 0, len(b), !charTable[b[k]]) && (!mustQuote || origQuote == 0)
+//@   ensures[F,C17] @quoted: !sameSlice(result, b) ==> len(result) >= 2 && result[0] == result[len(result)-1] && (result[0] == '"' || result[0] == '\'' || result[0] == origQuote)
+//@   loop 1 invariant -1 <= rangeindex && rangeindex < len(b) && singles == cnt(b, '\'', 0, rangeindex+1) && doubles == cnt(b, '"', 0, rangeindex+1)
+//@   loop 1 invariant[F] unquoted <==> forall(k, 0, rangeindex+1, !charTable[b[k]])
+//@   loop 2 invariant -1 <= rangeindex && rangeindex < len(b) && (quote == '"' || quote == '\'') && len(t) == n && n == len(b) + 2 + 4*old(cnt(b, quote, 0, len(b)))
+//@   loop 2 invariant 0 <= start && start <= rangeindex+1 && j == 1 + start + 4*old(cnt(b, quote, 0, rangeindex+1)) && forall(k, start, rangeindex+1, b[k] != quote)
+//@   loop 2 invariant[F] forall(k, 1, j, t[k] != quote) && (escapedQuote[0] == '&' && escapedQuote[1] == '#' && escapedQuote[2] == '3' && escapedQuote[4] == ';' && (escapedQuote[3] == '4' || escapedQuote[3] == '9')) && disjoint(t, escapedQuote)
+//@   loop 2 invariant disjoint(b, t) && forall(k, 0, len(b), b[k] == old(b[k])) && len(escapedQuote) == 5 && t[0] == quote
+//@   loop * decreases len(b) - rangeindex
+
+// ---- hash.go (C09, C16): soundness of the perfect hash: a non-zero result names exactly the argument
+//@ func ToHash
+//@   ensures[F,C16] @sound: result != 0 ==> len(s) == (result & 0xff) && forall(k, 0, len(s), _Hash_text[(result >> 8) + k] == s[k])
+//@   loop * candidate 0 <= i && i <= len(s)
+//@   loop * candidate len(t) == len(s)
+//@   loop * candidate[F] forall(k, 0, i, t[k] == s[k])
+//@   loop * candidate[F] len(s) == (i#2 & 0xff) && ptr(t) == ptr(_Hash_text) + (i#2 >> 8)
+//@   loop * candidate[F] len(s) == (i#4 & 0xff) && ptr(t#2) == ptr(_Hash_text) + (i#4 >> 8)
+//@   loop * candidate[F] forall(k, 0, i#3, t[k] == s[k])
+//@   loop * candidate[F] forall(k, 0, i#5, t#2[k] == s[k])
+//@   loop * candidate 0 <= i#3 && i#3 <= len(s)
+//@   loop * candidate 0 <= i#5 && i#5 <= len(s)
+//@   loop * candidate len(t#2) == len(s)
+
+//@ func Hash.Bytes
+//@   ensures[S] true
+//@ func Hash.String
+//@   ensures[S] true
